@@ -21,7 +21,8 @@
 //   T<b> wait | T<b> wake notified|timeout|spurious | T<b> swapped cur=… queued=… next=…
 //   T<b> wrote <items…> | T<b> exit wrote <items…>       items newly found in the files: <tid>.<seq> | note:<n>
 //   done | blocked T0:… T1:…
-// Oracle-only lines: `# dec <decisions>`, `# file <items…>` (the files parsed from the start, after destruction),
+// Oracle-only lines: `# dec <decisions>`, `# stop-file <items…>` (the files parsed from the start when stop() has
+//   returned), `# file <items…>` (the same after destruction),
 //   `# stderr-notes <n>` (drop announcements on stderr), `# stderr <text>` (after an abnormal end).
 #include <assert.h>
 #include <ctype.h>
@@ -337,6 +338,13 @@ void runChild(const CaseDef& c, const std::vector<int>& sched, const std::string
         printf("T0 stop-call\n");
         g_log->stop();
         printf("T0 stop-return\n");
+        {
+          // what is in the files at the moment stop() has returned
+          Parser now;
+          std::vector<std::string> found;
+          parseMore(&now, true, &found);
+          printf("# stop-file%s\n", joinItems(found).c_str());
+        }
         break;
     }
   }
